@@ -315,7 +315,7 @@ def random_sequences(mon, nseq=120, seed=1):
         x0 = rng.normal(size=n)
         if rng.random() < 0.4:       # scaled variables: (shift, scale) as solve builds them
             sc = (rng.normal(size=n), np.abs(rng.normal(size=n)) + 0.5)
-        mod = Model(npt, x0, rv(), -10 * np.ones(n), 10 * np.ones(n), proj, 1, h=h, precondition=bool(rng.integers(0, 2)), scaling_changes=sc)
+        mod = Model(npt, x0, rv(), -10 * np.ones(n), 10 * np.ones(n), proj, int(rng.integers(1, 4)), h=h, precondition=bool(rng.integers(0, 2)), scaling_changes=sc)
         evn = 1
         for step in range(int(rng.integers(4, 25))):
             if mon.violation:
